@@ -515,3 +515,72 @@ V("C15-benign-helper-wrap", "C15", "validate+store moved into a helper that is c
     def __setattr__(self, name: str, value: Any) -> Any:
         \"\"\"
         Validate a configuration value and set it.""")])
+
+# ------------------------------------------------------------------------------------------ C02
+V("C02-list-no-decode", "C02", "D2 re-introduced: ListField.to_python does not decode items", LIST,
+  "        if isinstance(self.field, Field) and isinstance(value, (list, tuple)):\n            value = [self.field.to_python(cfg, item) for item in value]\n",
+  "", expect_rule="agree.container-codec @ ListField.to_python", check=["C02", "C05"])
+V("C02-dict-value-no-decode", "C02", "DictField.to_python decodes keys only", DICT,
+  "                self.key_field.to_python(cfg, key): self.value_field.to_python(cfg, val)  # type: ignore",
+  "                self.key_field.to_python(cfg, key): val  # type: ignore",
+  expect_rule="agree.container-codec @ DictField.to_python", check=["C02", "C05"])
+V("C02-instance-methods-in-tree", "C02", "to_tree no longer skips instance methods", CORE,
+  "            if isinstance(field, InstanceMethodFieldMixin):\n                continue\n\n            field_value",
+  "            field_value", expect_rule="tree.no-instance-methods")
+V("C02-virtual-always", "C02", "virtual fields emitted without being asked for", CORE,
+  "            is_virtual = virtual and isinstance(field, VirtualFieldMixin)",
+  "            is_virtual = isinstance(field, VirtualFieldMixin)", expect_rule="tree.virtual-on-request")
+V("C02-raw-value-in-tree", "C02", "non-Field values stored raw in the tree", CORE,
+  "            field_value = field.__getval__(self)\n            value: Any = None",
+  "            field_value = field.__getval__(self)\n            value: Any = field_value", expect_rule="tree.no-raw-values")
+V("C02-load-skips-to_python", "C02", "load_tree stores undecoded values for required fields", CORE,
+  """                try:
+                    value = field.to_python(self, value)
+                except ValidationError:""",
+  """                try:
+                    if not field.required:
+                        value = field.to_python(self, value)
+                except ValidationError:""", expect_rule="load.decode-before-store")
+V("C02-save-text-mode", "C02", "save opens the destination in text mode", CORE,
+  "        with open(filename, \"wb\") as file:\n            file.write(content)",
+  "        with open(filename, \"w\") as file:\n            file.write(content)", expect_rule="glue.binary-save")
+V("C02-load-no-expanduser", "C02", "load does not expand ~ (save does)", CORE,
+  "        filename = os.path.expanduser(filename)\n        with open(filename, \"rb\") as file:",
+  "        with open(filename, \"rb\") as file:", expect_rule="glue.expanduser-load")
+V("C02-dumps-drops-virtual", "C02", "dumps does not forward virtual to to_tree", CORE,
+  "            self, self.to_tree(virtual=virtual, sensitive_mask=sensitive_mask)",
+  "            self, self.to_tree(sensitive_mask=sensitive_mask)", expect_rule="glue.dumps")
+V("C02-loads-skips-includes", "C02", "loads feeds the raw parsed tree to load_tree", CORE,
+  "        tree = self._process_includes(self._schema, tree, format_factory)\n\n        self.load_tree(tree)",
+  "        self._process_includes(self._schema, tree, format_factory)\n\n        self.load_tree(tree)", expect_rule="glue.loads")
+V("C02-benign-loop-decode", "C02", "ListField.to_python decodes in an explicit loop", LIST, expect="silent",
+  old="            value = [self.field.to_python(cfg, item) for item in value]\n",
+  new="            decoded = []\n            for item in value:\n                decoded.append(self.field.to_python(cfg, item))\n            value = decoded\n")
+
+# ------------------------------------------------------------------------------------------ C03
+V("C03-cache-parent-keyfile", "C03", "D3 re-introduced: inherited key file cached in the child", CORE,
+  "                return self._parent._keyfile\n            self.__keyfile = KeyFile(Config.DEFAULT_CINCOKEY_FILEPATH)",
+  "                self.__keyfile = self._parent._keyfile\n                return self.__keyfile\n            self.__keyfile = KeyFile(Config.DEFAULT_CINCOKEY_FILEPATH)",
+  expect_rule="keyfile.inherit-by-lookup")
+V("C03-field-method-recorded", "C03", "to_basic records the field's method ('best') instead of the resolved one", SEC,
+  "            \"method\": secret.method,", "            \"method\": self.method,", expect_rule="method.recorded-from-result")
+V("C03-get-provider-best", "C03", "_get_provider returns the requested name for 'best'", ENC,
+  "            return XorProvider(self.__key), \"xor\"", "            return XorProvider(self.__key), method", expect_rule="method.concrete")
+V("C03-own-keyfile-in-field", "C03", "SecureField builds its own default KeyFile", SEC,
+  "        with cfg._keyfile as ctx:\n            secret = ctx.encrypt(value, method=self.method)",
+  "        from ..encryption import KeyFile\n        with KeyFile(cfg.DEFAULT_CINCOKEY_FILEPATH) as ctx:\n            secret = ctx.encrypt(value, method=self.method)",
+  expect_rule="keyfile.")
+V("C03-plaintext-fallback", "C03", "to_basic falls back to base64 of the plaintext when encryption fails", SEC,
+  "        with cfg._keyfile as ctx:\n            secret = ctx.encrypt(value, method=self.method)\n\n        return {",
+  "        try:\n            with cfg._keyfile as ctx:\n                secret = ctx.encrypt(value, method=self.method)\n        except Exception:\n            return {\"method\": \"plain\", \"ciphertext\": base64.b64encode(value.encode()).decode()}\n\n        return {",
+  expect_rule="taint.plaintext")
+V("C03-default-before-parent", "C03", "default key file preferred over the parent's", CORE,
+  "            if self._parent:\n                # This will bubble up to the root config\n                return self._parent._keyfile\n            self.__keyfile = KeyFile(Config.DEFAULT_CINCOKEY_FILEPATH)",
+  "            self.__keyfile = KeyFile(Config.DEFAULT_CINCOKEY_FILEPATH)", expect_rule="keyfile.")
+V("C03-encrypt-records-param", "C03", "KeyFile.encrypt records the requested method", ENC,
+  "        provider, method = self._get_provider(method)\n        ciphertext = provider.encrypt(bindata)",
+  "        provider, _ = self._get_provider(method)\n        ciphertext = provider.encrypt(bindata)", expect_rule="method.encrypt-uses-resolved")
+V("C03-root-keyfile-in-field", "C03", "to_python decrypts with the root's key file only", SEC,
+  "                with cfg._keyfile as ctx:\n                    text = ctx.decrypt",
+  "                root = cfg\n                while root._parent:\n                    root = root._parent\n                with root._keyfile as ctx:\n                    text = ctx.decrypt",
+  expect_rule="keyfile.of-given-config")
